@@ -331,6 +331,11 @@ class C20:
             n1, n2 = rng.randint(1, 4), rng.randint(1, 3)
             init["axes"] = [gen1.binning_json([[i * w1, (i + 1) * w1] for i in range(n1)], form="static_obj"),
                             gen1.binning_json([[i * w2 - 1, (i + 1) * w2 - 1] for i in range(n2)], form="static_obj")]
+            if rng.random() < 0.3 and n1 >= 2:
+                # equal-width bins WITH GAPS: an image has equally wide columns over its extent, so it cannot show every bin at
+                # the bin's position -- refused, or every pixel column on its bin
+                init["axes"][0] = gen1.binning_json([[2 * i * w1, (2 * i + 1) * w1] for i in range(n1)], form="static_obj")
+                tags.append("image:gapped_equal_width")
             init["freq"] = [rs(rng.randint(0, 9)) for _ in range(n1 * n2)]
             init["err2"] = None
             opt["interpolation"] = rng.choice([None, "nearest", "bilinear"])
@@ -1695,6 +1700,15 @@ class C20:
             arr = np.array([[ff(v) for v in row] for row in im["array"]])
             if arr.shape != data.T.shape or not np.allclose(arr, data.T[::-1, :]):
                 fails.append("image_pixels: the image is not the (transposed, y-flipped) table of values")
+            else:
+                # one cell per bin AT THE BIN'S POSITION: pixel column i covers [x0 + i*dx, x0 + (i+1)*dx] of the extent
+                for name, bins_, lo, hi in (("x", xb, ext[0], ext[1]), ("y", yb, ext[2], ext[3])):
+                    n_ = len(bins_)
+                    for i, (l, r) in enumerate(bins_):
+                        pl, pr = lo + (hi - lo) * i / n_, lo + (hi - lo) * (i + 1) / n_
+                        if abs(pl - l) > 1e-9 * max(1, abs(l)) or abs(pr - r) > 1e-9 * max(1, abs(r)):
+                            fails.append(f"image_cells: pixel {name}-column {i} covers [{pl}, {pr}], the bin is [{l}, {r}]")
+                            break
             self._or_labels2(opt, o, fails, "image")
         else:
             hm = o["heatmap"]
